@@ -66,6 +66,20 @@ CHECKS = {
         note="Trusted: TLC; a fresh process is emulated by clearing every lru_cache of pyrefact. History length bounded.",
         design_ref="DESIGN.md sections 3.4, 5 (C05)",
     ),
+    "C06": dict(
+        category="model_checking",
+        technique="TLA+ model of format_files over a worker pool (Pool.tla) model-checked by TLC for every interleaving of file operations; one witness schedule per terminal state replayed into the real format_files through a controlled pool; hash seeds varied in fresh interpreters",
+        text=("Pool.tla: module passes, per-folder bookkeeping, workers whose read / read-dependency / truncate / write / finish steps interleave. "
+              "TLC proves ParEqSeq (final tree and report = sequential run) for every interleaving when no task reads a file the same pass "
+              "rewrites, and yields the racing schedules otherwise. Every terminal state (distinct assignment of tasks to workers, completion "
+              "order, observations) comes with a witness schedule that is replayed into the real format_files: real forked workers are stopped "
+              "at every open() inside the tree and released in schedule order; the executed log is interpreted with the model's semantics "
+              "(Fmt = the real format_file in isolation) and must predict the real tree, per-task results and return value, which must equal "
+              "the sequential run. Plus the real multiprocessing pool (n_cores 2..16, shuffled / duplicated lists) against n_cores=1, and "
+              "format_code / single rules in fresh interpreters under 8+ PYTHONHASHSEED values with perturbed heap layouts."),
+        note="Trusted: TLC; the controlled pool serialises file operations (workers share no memory). Address-dependent set orders are perturbed, not enumerated.",
+        design_ref="DESIGN.md sections 3.5, 5 (C06)",
+    ),
     "C07": dict(
         category="model_checking",
         technique="TLA+ generator of module surfaces (Surface.tla) enumerated by TLC; safe-mode runs recorded and validated by TLC against PipelineTrace.tla (FinalSurface)",
